@@ -1,6 +1,6 @@
 """C20 - name derivation is total, valid and collision-safe.
 
-Layer A (functions): every string of length <= K over a 9-symbol alphabet, plus every Python keyword /
+Layer A (functions): every string of length <= K over a 11-symbol alphabet, plus every Python keyword /
 soft keyword / True False None self cls in three casings, through each derivation function; oracle:
 str.isidentifier() and not keyword.
 
@@ -23,7 +23,7 @@ from ..kernel import HarnessError
 
 PID = "C20"
 LEVEL = "exploration"
-RULE = ("layer A: all strings of length<=K over {a,B,1,_,-,space,$,é,名} + keyword table through each name-derivation "
+RULE = ("layer A: all strings of length<=K over {a,B,1,_,-,space,$,é,名,²(alnum, not identifier char),٣(non-ASCII digit)} + keyword table through each name-derivation "
         "function (batched); layer B: all colliding pairs / invented-suffix triples of short strings placed in each "
         "namespace through the real generator. non-trivial = distinct (function, input) whose output differs from the "
         "input, resp. distinct colliding tuples per namespace")
@@ -32,10 +32,10 @@ ASSUMPTIONS = [
     "layer B reads the emitted code through ast instead of importing it (import failures are C01's subject)",
     "tag spelling variants that normalise to one key are merged by design and are not treated as collisions",
 ]
-BOUND = {"quick": "strings<=4 symbols (7381) + keyword table; namespace tuples from strings<=2",
-         "thorough": "strings<=5 symbols (66430) + keyword table; namespace tuples from strings<=3"}
+BOUND = {"quick": "strings<=4 symbols (16105) + keyword table; namespace tuples from strings<=2",
+         "thorough": "strings<=5 symbols (177156) + keyword table; namespace tuples from strings<=3"}
 
-ALPHA = ["a", "B", "1", "_", "-", " ", "$", "é", "名"]
+ALPHA = ["a", "B", "1", "_", "-", " ", "$", "é", "名", "²", "٣"]
 FUNCS = ["sanitize_class_name", "sanitize_module_name", "sanitize_method_name", "sanitize_tag_class_name",
          "sanitize_tag_attr_name", "sanitize_filename", "enum_str_member", "enum_int_member"]
 
@@ -121,14 +121,24 @@ def cases(tier, seed):
     for i in range(0, len(strs), B):
         out.append({"kind": "fn", "strings": strs[i:i + B]})
     # namespace layer
-    short = strings_upto(2 if tier == "quick" else 3)
-    short = [s for s in short if s != ""] + ["class", "Class", "CLASS", "id", "Id", "type", "date", "field", "None", "none",
-                                             "userName", "user_name", "user-name", "UserName", "a_2", "a_1", "A_1", "A2", "a2"]
-    seen = set()
-    short = [s for s in short if not (s in seen or seen.add(s))]
-    reduced = [s for s in short if all(c in "aB1_-$" for c in s) or len(s) > 3]
+    extras = ["class", "Class", "CLASS", "id", "Id", "type", "date", "field", "None", "none",
+              "userName", "user_name", "user-name", "UserName", "a_2", "a_1", "A_1", "A2", "a2"]
+
+    def over(alpha, k):
+        o = []
+        for n in range(1, k + 1):
+            o.extend("".join(t) for t in itertools.product(alpha, repeat=n))
+        return o
+
+    small = ["a", "B", "1", "_", "-", "$", "é", "²"]
+    if tier == "quick":
+        pools = {ns: over(small, 2) + extras for ns in ("props", "params", "schemas", "enum", "opids")}
+    else:
+        pools = {"props": over(ALPHA, 2) + over(small[:6], 3) + extras, "enum": over(ALPHA, 2) + over(small[:6], 3) + extras,
+                 "params": over(ALPHA, 2) + extras, "schemas": over(ALPHA, 2) + extras, "opids": over(ALPHA, 2) + extras}
     for ns in ("props", "params", "schemas", "enum", "opids"):
-        pool = short if (ns in ("props", "enum") or tier == "quick") else reduced
+        seen = set()
+        pool = [s for s in pools[ns] if not (s in seen or seen.add(s))]
         for names in expand_plan({"ns": ns, "strings": pool}):
             out.append({"kind": "ns", "ns": ns, "names": names})
     return out
